@@ -47,6 +47,8 @@ COMPONENTS = {"real": ["geomdl BSpline/NURBS objects, operations.insert_knot/rem
                        "evictions and cache size"]}
 
 TOL = 1e-7
+KNOT_TOL = 10e-8
+NEAR_OFFSETS = [2.0 ** -53, -(2.0 ** -53), 2.0 ** -30, -(2.0 ** -30), 2.0 ** -25, -(2.0 ** -25), 5e-17, -5e-17]
 
 
 # (a, L) of un-normalised knot ranges [a, a + L]; a third of them straddle zero (0.0 is then a legal interior parameter)
@@ -93,6 +95,9 @@ def gen(prop, stream, tier, avoid):
             spec["aL"] = [list(aL0) for _ in range(nd_)]
             spec["knots"] = [shapes.affine_knots(spec["knots"][0], aL0[0], aL0[1]) for _ in range(nd_)]
             spec["share_dirs"] = True
+        if not spec.get("share_dirs") and rng.chance(0.3):
+            own = {"curve": ["reverse", "reverse"], "surface": ["transpose", "transpose"], "volume": []}[kind]
+            spec["pre"] = sorted(set(rng.sample(own + ["deepcopy", "translate_copy", "container", "subeval"], rng.pick([1, 1, 2]))))
         objs.append(spec)
     if nobj >= 2 and kn.chance(0.2) and "unnormalised" not in avoid:
         # usage: two objects built from the same knot vector variables (same list objects, normalize_kv=False)
@@ -122,7 +127,12 @@ def gen(prop, stream, tier, avoid):
         o = rng.randrange(nobj)
         nd = shapes.DIRS[objs[o]["kind"]]
         k = rng.weighted([("insert", w_ins), ("read", w_read), ("reject", w_rej), ("remove", w_rem), ("refine", w_ref),
-                          ("clone", 0.25 if nobj >= 2 else 0.0)])
+                          ("clone", 0.25 if nobj >= 2 else 0.0), ("subeval", 0.35)])
+        if k == "subeval":
+            # evaluate(start=..., stop=...) on part of the domain: what it leaves behind must not survive the next modification
+            lo_ = [rng.pick([0.0, 0.25, 0.5]) for _ in range(3)]
+            ops.append({"op": "subeval", "obj": o, "lo": lo_, "hi": [x + rng.pick([0.25, 0.5]) for x in lo_]})
+            continue
         if k == "clone":
             # usage: a second object is built from the getters of the first one (c.ctrlpts = ref.ctrlpts; c.knotvector = ref.knotvector)
             # in the middle of the history, and both are used afterwards
@@ -133,7 +143,9 @@ def gen(prop, stream, tier, avoid):
             dirs = {}
             for d in rng.sample(range(nd), ndirs):
                 at = ["knot", rng.randrange(8)] if rng.chance(0.45) else ["new", rng.randint(1, 127)]
-                if objs[o].get("aL") and rng.chance(0.3):
+                if rng.chance(0.06):
+                    at = ["near", rng.randrange(8), rng.randrange(8)]
+                elif objs[o].get("aL") and rng.chance(0.3):
                     at = ["zero", at[1] if at[0] == "new" else rng.randint(1, 127)]      # parameter exactly 0.0 where the range straddles zero
                 dirs[str(d)] = {"at": at, "num": rng.pick([1, 1, 2, 2, 3, 4])}
             ops.append({"op": "insert", "obj": o, "via": rng.pick(["method", "operations"]), "dirs": dirs})
@@ -164,6 +176,8 @@ def gen(prop, stream, tier, avoid):
             dirs = {}
             for d in rng.sample(range(nd), ndirs):
                 dirs[str(d)] = {"which": rng.randrange(8), "num": rng.pick([1, 1, 2, 3, 4])}
+                if rng.chance(0.08):
+                    dirs[str(d)]["near"] = rng.randrange(8)      # the knot is named with float noise (within the library's knot tolerance)
             ops.append({"op": "remove", "obj": o, "via": rng.pick(["method", "operations"]), "dirs": dirs})
             if ops[-1]["via"] == "operations" and nd > 1 and rng.chance(0.35):
                 ops[-1]["held_num"] = rng.pick([1, 1, 2])
@@ -276,20 +290,65 @@ class Live:
             self.obj.delta = tuple(spec.get("deltas") or [spec["delta"]] * nd)
         self.nd = nd
         self.num = num
-        self.F0 = shapes.model_of_spec(spec, num)
+        self.evalpts_read = False
+        self.keepalive = []
+        if lists is None and spec.get("pre"):
+            # the object has a past before the history starts: it was reversed / transposed / copied / put into a container /
+            # evaluated on part of its domain. Whatever shape it has THEN is the original that insertion and removal must preserve.
+            g = shapes.G.load()
+            for pre in spec["pre"]:
+                if pre == "reverse" and nd == 1:
+                    self.obj.reverse()
+                elif pre == "transpose" and nd == 2:
+                    self.obj.transpose()
+                elif pre == "deepcopy":
+                    self.keepalive.append(self.obj)
+                    self.obj = copy.deepcopy(self.obj)
+                elif pre == "translate_copy":
+                    self.keepalive.append(self.obj)
+                    self.obj = g.operations.translate(self.obj, [1.0, -2.0, 0.5][:spec["dim"]])
+                elif pre == "container":
+                    cont = {1: g.multi.CurveContainer, 2: g.multi.SurfaceContainer, 3: g.multi.VolumeContainer}[nd]()
+                    cont.add(self.obj)
+                    self.keepalive.append(cont)
+                elif pre == "subeval":
+                    _ = self.obj.evalpts
+                    kw = {}
+                    for d in range(nd):
+                        sfx = "" if nd == 1 else "_" + shapes.SUFFIX[d]
+                        a_, L_ = self.aL[d]
+                        kw["start" + sfx], kw["stop" + sfx] = a_ + L_ * 0.25, a_ + L_ * 0.75
+                    self.obj.evaluate(**kw)
+                    self.evalpts_read = True
+                    self.partial = True
+            dfn = shapes.definition(self.obj)
+            spec = dict(spec, degrees=dfn["degrees"], sizes=dfn["sizes"], knots=dfn["knots"])
+            self.F0 = R.Spline(dfn["degrees"], dfn["knots"], dfn["sizes"], dfn["ctrlptsw"], dfn["rational"], num)
+            self.orig_net = [list(q) for q in dfn["ctrlptsw"]]
+            if spec.get("aL"):
+                self.aL = [[kv[0], kv[-1] - kv[0]] for kv in dfn["knots"]]      # (a transposition swaps the ranges with the directions)
+        else:
+            self.F0 = shapes.model_of_spec(spec, num)
+            self.orig_net = shapes.spec_ctrlptsw(spec)
         self.orig_knots = [list(kv) for kv in spec["knots"]]
-        self.orig_net = shapes.spec_ctrlptsw(spec)
         self.knots = [list(kv) for kv in spec["knots"]]      # expected knot multisets (sorted)
         self.sizes = list(spec["sizes"])
         self.degrees = list(spec["degrees"])
-        self.evalpts_read = False
         self.last_touch = None     # (dir, knot) of the last successful modification
         self.held_nums = {}        # count -> the list object the simulated caller keeps and passes to every call
         self.pending = {}          # (dir, knot) -> True if an unrelated op happened since it became removable
         self.n_insert_ok = 0
 
     def mult(self, d, u):
-        return sum(1 for k in self.knots[d] if k == u)
+        # a parameter within the library's documented multiplicity tolerance (helpers.find_multiplicity, 10e-8) of a knot IS that
+        # knot; generated distinct knots are at least 1/512 apart
+        return sum(1 for k in self.knots[d] if abs(k - u) <= KNOT_TOL)
+
+    def snap(self, d, u):
+        for k in self.knots[d]:
+            if abs(k - u) <= KNOT_TOL:
+                return k
+        return u
 
     def interior(self, d):
         p = self.degrees[d]
@@ -308,11 +367,29 @@ class Live:
         return out
 
 
+def _near_offset(code, base):
+    """Float noise next to a knot: the library's knot tolerance is ABSOLUTE (10e-8), rounding noise is relative."""
+    off = NEAR_OFFSETS[code % len(NEAR_OFFSETS)]
+    return off * max(1.0, abs(base)) if abs(off) < 1e-12 else off
+
+
 def _resolve_at(lv, d, at):
     a, L = lv.aL[d]
     if at[0] == "end":
         # an end of the domain: the clamped end knot has multiplicity degree + 1, nothing can be inserted there
         return (lv.knots[d][0] if at[1] == 0 else lv.knots[d][-1]), True
+    if at[0] == "near":
+        # a parameter that differs from an existing interior knot by less than the library's knot tolerance (float noise: 1 - 0.7,
+        # a value read back from a file, a knot computed twice)
+        ik = lv.interior(d)
+        if ik:
+            base = ik[at[1] % len(ik)]
+            u = base + _near_offset(at[2], base)
+            if u != base and lv.knots[d][0] < u < lv.knots[d][-1]:
+                lv.near_used = True
+                return u, True
+            return base, True
+        return a + L * 0.5, False
     if at[0] == "zero":
         if lv.knots[d][0] < 0.0 < lv.knots[d][-1]:
             return 0.0, lv.mult(d, 0.0) > 0
@@ -377,13 +454,18 @@ def _check_structure(ctx, lv, what, step_sig):
     if list(d["sizes"]) != list(lv.sizes):
         ctx.fail("wrong_size", "after %s control net sizes are %r, specification says %r" % (what, d["sizes"], lv.sizes), **step_sig)
     for i in range(lv.nd):
-        ok, why = close(d["knots"][i], lv.knots[i], 1e-12, 1.0)
+        # (after an insertion next to a knot the library may store the given value or the knot it identifies it with)
+        ok, why = close(d["knots"][i], lv.knots[i], 2 * KNOT_TOL if getattr(lv, "near_used", False) else 1e-12, 1.0)
         if not ok:
             ctx.fail("wrong_knotvector", "after %s knot vector in direction %d is %r, specification says %r (%s)" % (
                 what, i, d["knots"][i], lv.knots[i], why), **step_sig)
 
 
-def _check_evalpts(ctx, lv, what, step_sig):
+def _check_evalpts(ctx, lv, what, step_sig, modified=True):
+    if modified:
+        lv.partial = False        # a modification has to drop whatever was sampled before, also a partial-domain evaluation
+    elif getattr(lv, "partial", False):
+        return                    # nothing changed: a partial-domain evaluation legitimately stays what it is
     if not lv.evalpts_read:
         return
     got = [list(p) for p in lv.obj.evalpts]
@@ -590,6 +672,22 @@ def run(script, ctx):
             _check_structure(ctx, cl, "building a second object from the getters of object #%d" % op["obj"], sig)
             continue
 
+        if k == "subeval":
+            kw = {}
+            for d in range(lv.nd):
+                sfx = "" if lv.nd == 1 else "_" + shapes.SUFFIX[d]
+                lo_k, hi_k = lv.knots[d][lv.degrees[d]], lv.knots[d][-lv.degrees[d] - 1]
+                kw["start" + sfx] = lo_k + (hi_k - lo_k) * op["lo"][d]
+                kw["stop" + sfx] = lo_k + (hi_k - lo_k) * min(1.0, op["hi"][d])
+            lv.obj.evaluate(**kw)
+            lv.evalpts_read = True
+            lv.partial = True
+            ctx.log("subeval", op["obj"], sorted(kw.items()))
+            ctx.ops_executed += 1
+            ctx.probe("partial_domain_evaluation_before_modification")
+            _touch_others(world, lv, None)
+            continue
+
         if k == "read":
             got = [list(p) for p in lv.obj.evalpts]
             lv.evalpts_read = True
@@ -632,7 +730,7 @@ def run(script, ctx):
                     raise Precondition("insertion raised %r" % (e,))
                 ctx.fail("valid_insert_raised", "%s raised %r on %s degrees=%r knots=%r" % (what, e, kind, lv.degrees, lv.knots), **sig)
             for d, u, r, s in plan:
-                lv.knots[d] = sorted(lv.knots[d] + [u] * r)
+                lv.knots[d] = sorted(lv.knots[d] + [lv.snap(d, u)] * r)
                 lv.sizes[d] += r
                 lv.pending.setdefault((d, u), False)
                 if s > 0:
@@ -647,7 +745,7 @@ def run(script, ctx):
                     ctx.nontrivial = True
                 _check_structure(ctx, lv, what, sig)
                 _check_function(ctx, lv, what, prop, sig, h64(base_seed, idx))
-                _check_evalpts(ctx, lv, what, sig)
+                _check_evalpts(ctx, lv, what, sig, modified=True)
             else:
                 try:
                     _check_structure(ctx, lv, what, sig)
@@ -747,7 +845,7 @@ def run(script, ctx):
                     what, d, dfn["sizes"][d], got, lv.sizes[d], old), **sig)
             ctx.log("reject_multi", op["obj"], params, nums, lv.sizes)
             _check_function(ctx, lv, what, prop, sig, h64(base_seed, idx))
-            _check_evalpts(ctx, lv, what, sig)
+            _check_evalpts(ctx, lv, what, sig, modified=False)
             _touch_others(world, lv, None)
             continue
 
@@ -814,7 +912,7 @@ def run(script, ctx):
             # describe the original function with the knot vectors and sizes the history so far implies
             _check_structure(ctx, lv, what, sig)
             _check_function(ctx, lv, what, prop, sig, h64(base_seed, idx))
-            _check_evalpts(ctx, lv, what, sig)
+            _check_evalpts(ctx, lv, what, sig, modified=False)
             _touch_others(world, lv, None)
             continue
 
@@ -835,6 +933,11 @@ def run(script, ctx):
                 u, extra = rem[spec["which"] % len(rem)]
                 r = max(1, min(spec["num"], extra))
                 params[d] = u
+                if spec.get("near") is not None:
+                    un = u + _near_offset(spec["near"], u)
+                    if un != u and lv.knots[d][0] < un < lv.knots[d][-1]:
+                        params[d] = un
+                        ctx.probe("knot_named_with_float_noise")
                 nums[d] = r
                 plan.append((d, u, r, extra))
             if not plan:
@@ -871,7 +974,7 @@ def run(script, ctx):
             sig["degree"] = lv.degrees[plan[0][0]]
             _check_structure(ctx, lv, what, sig)
             _check_function(ctx, lv, what, prop, sig, h64(base_seed, idx))
-            _check_evalpts(ctx, lv, what, sig)
+            _check_evalpts(ctx, lv, what, sig, modified=True)
             if all(not lv.removable(dd) for dd in range(lv.nd)) and lv.knots == lv.orig_knots:
                 net = shapes.definition(lv.obj)["ctrlptsw"]
                 ok, why = close(net, lv.orig_net, TOL)
